@@ -4,7 +4,7 @@ Arm rules on the four helper functions (which arm writes / reads the slot, which
 contract of IntError, a small constant/non-zero dataflow on the shipped IntError impls, and per-method plumbing rules on every
 generated int-result method of the corpus and the repository.
 """
-from lib import corpus, facts, mir, model, report
+from lib import corpus, facts, mir, model, report, sem
 
 NZ_NEW = "std::num::NonZero::<T>::new"
 NZ_GET = "std::num::NonZero::<T>::get"
@@ -21,7 +21,98 @@ def find_fn(f, path, unit=None):
     return v[0] if v else None
 
 
-def check_into(ck, fn, with_out):
+
+# ---- semantic (case-summary) form of the helper rules; the shape rules below remain as the fallback when a body cannot be summarised ----
+def _evaluator(f, unit):
+    fns = {x["path"]: x for x in f.fns(unit)}
+    adts = {a["path"]: a for a in f.adts(unit)}
+    crate = ("cglue::", "<cglue::", "plugin_api::", "<plugin_api::", "cgv_controls::", "<cgv_controls::")
+    return sem.Evaluator(fns, adts, inline=lambda p: p.startswith(crate) or "::{closure" in p)
+
+
+def _mentions(v, term):
+    return sem.contains(v, lambda x: x == term) or v == term
+
+
+def _cond(o, kind, term, val=None):
+    return any(c[0] == kind and c[1] == term and (val is None or c[2] == val) for c in o.conds)
+
+
+def check_into(ck, fn, with_out, ev=None):
+    """Per case of the argument: Ok -> 0 is returned and (with an output slot) the payload is written into it exactly once;
+    Err -> the code is get(into_int_err(e)) of that very error and the slot is not touched."""
+    key = fn["path"]
+    ev = ev or _evaluator(facts.cfg_cglue(), "cglue-lib")
+    res, slot = ("sym", "res"), ("sym", "ok_out")
+    ev.hint(res, "std::result::Result")
+    args = [res] + ([slot] if with_out else [])
+    outs = ev.run(fn, args)
+    if any(o.kind == "stuck" for o in outs):
+        return shape_check_into(ck, fn, with_out)
+    oks = [o for o in outs if _cond(o, "discr", res, "Ok")]
+    errs = [o for o in outs if _cond(o, "discr", res, "Err")]
+    if not ck.ob("I-dispatch-on-result", key, len(oks) >= 1 and len(errs) >= 1 and len(oks) + len(errs) == len(outs) and all(o.kind == "ret" for o in outs),
+                 "%s does not decide by the variant of its Result argument (or can panic): %s" % (key, outs)):
+        return
+    pay_ok, pay_err = ("pay", res, "Ok", 0), ("pay", res, "Err", 0)
+    for o in oks:
+        writes = [e for e in o.calls() if e[1].endswith("::write") and any(_mentions(a, slot) for a in e[2][:1])]
+        if with_out:
+            good = len(writes) == 1 and sem.strip(writes[0][2][-1]) == pay_ok and \
+                not any(e[0] == "drop" and _mentions(e[1], pay_ok) for e in o.effects) and \
+                sum(1 for e in o.effects if e[0] in ("call", "icall") and any(_mentions(a, pay_ok) for a in e[2])) == 1
+            ck.ob("I-ok-writes-once", key, good, "%s: the Ok case must move the payload into ok_out exactly once: %s" % (key, o), sample={"fn": key, "case": repr(o)[:200]})
+        ck.ob("I-ok-returns-zero", key, o.ret == ("const", 0), "%s: the Ok case returns %s, not 0" % (key, sem.fmt(o.ret)))
+        ck.ob("I-ok-no-err-call", key, not o.calls("into_int_err"), "%s encodes an error on the Ok case" % key)
+    for o in errs:
+        enc = o.calls("IntError::into_int_err")
+        good = len(enc) == 1 and sem.strip(enc[0][2][0]) == pay_err
+        if good:
+            r = sem.strip(o.ret)
+            good = r[0] == "opq" and r[2][0] == "nzget" and sem.strip(r[2][1])[0] == "opq" and sem.strip(r[2][1])[1] == enc[0][3]
+        ck.ob("I-err-returns-nonzero-code", key, good, "%s: the Err case must return NonZeroI32::get(into_int_err(e)) of its own error: %s" % (key, o),
+              sample={"fn": key, "err_case": repr(o)[:200]})
+        if with_out:
+            touch = [e for e in o.effects if e[0] in ("call", "icall") and any(_mentions(a, slot) for a in e[2])]
+            ck.ob("I-err-leaves-slot", key, not touch, "%s touches ok_out on the Err case: %s" % (key, o))
+
+
+def check_from(ck, fn, with_val, ev=None):
+    """code == 0 -> Ok(slot value read exactly once / unit); code != 0 -> Err(from_int_err(code)) and the slot is never read."""
+    key = fn["path"]
+    ev = ev or _evaluator(facts.cfg_cglue(), "cglue-lib")
+    code, slot = ("sym", "code"), ("sym", "slot")
+    outs = ev.run(fn, [code] + ([slot] if with_val else []))
+    if any(o.kind == "stuck" for o in outs):
+        return shape_check_from(ck, fn, with_val)
+    zero = [o for o in outs if _cond(o, "eq", code, 0)]
+    nonz = [o for o in outs if _cond(o, "ne", code, (0,))]
+    if not ck.ob("F-dispatch-on-nonzero", key, len(zero) >= 1 and len(nonz) >= 1 and len(zero) + len(nonz) == len(outs) and all(o.kind == "ret" for o in outs),
+                 "%s does not decide by code == 0 / code != 0 (or can panic): %s" % (key, outs)):
+        return
+    for o in zero:
+        reads = [e for e in o.calls() if e[1].endswith("assume_init") or e[1].endswith("assume_init_read")]
+        r = sem.strip(o.ret)
+        is_ok = r[0] == "agg" and r[3] == "Ok"
+        ck.ob("F-variant-by-code", "%s/Ok" % key, is_ok and not o.calls("from_int_err"), "%s: code 0 yields %s" % (key, sem.fmt(o.ret)))
+        if with_val:
+            good = is_ok and len(reads) == 1 and sem.strip(reads[0][2][0]) == slot and sem.strip(r[4][0])[0] == "opq" and sem.strip(r[4][0])[1] == reads[0][3]
+            ck.ob("F-assume-init-only-on-zero", key, good, "%s: for code 0 the Ok payload must be the slot value, read exactly once: %s" % (key, o),
+                  sample={"fn": key, "zero_case": repr(o)[:200]})
+        else:
+            ck.ob("F-no-slot", key, not reads, "%s reads a slot although it has none" % key)
+    for o in nonz:
+        reads = [e for e in o.calls() if e[1].endswith("assume_init") or e[1].endswith("assume_init_read")]
+        dec = o.calls("IntError::from_int_err")
+        r = sem.strip(o.ret)
+        good = r[0] == "agg" and r[3] == "Err" and len(dec) == 1 and sem.strip(dec[0][2][0]) == ("nz", code) and sem.strip(r[4][0])[0] == "opq" and sem.strip(r[4][0])[1] == dec[0][3]
+        ck.ob("F-err-decoded-from-code", key, good, "%s: a non-zero code must yield Err(from_int_err(code)): %s" % (key, o))
+        ck.ob("F-variant-by-code", "%s/Err" % key, r[0] == "agg" and r[3] == "Err", "%s: a non-zero code yields %s" % (key, sem.fmt(o.ret)))
+        if with_val:
+            ck.ob("F-assume-init-only-on-zero", key + "/nonzero", not reads, "%s reads the output slot although the code is not 0: %s" % (key, o))
+
+
+def shape_check_into(ck, fn, with_out):
     body = mir.Body(fn)
     key = fn["path"]
     allsw = mir.discr_switches(body)
@@ -75,7 +166,7 @@ def check_into(ck, fn, with_out):
     ck.ob("I-two-returns", key, len(body.defs().get(0, [])) == 2, "%s assigns its return value outside the two arms" % key)
 
 
-def check_from(ck, fn, with_val):
+def shape_check_from(ck, fn, with_val):
     body = mir.Body(fn)
     key = fn["path"]
     sws = mir.discr_switches(body)
@@ -174,8 +265,17 @@ def check_interr_impls(ck, f, unit, label, expect_bad=False):
         if fn["name"] == "into_int_err":
             unchecked = [cp(t) for _, t in body.calls() if NZ_UNCHECKED in cp(t)]
             news = [(i, t) for i, t in body.calls() if cp(t) == NZ_NEW]
-            okv = [nonzero_argument(body, t, adts) for _, t in news]
-            good = not unchecked and news and all(o for o, _ in okv)
+            # semantic form: on every path the function returns (never panics) a NonZero built from a value known to be non-zero there
+            ev = _evaluator(f, unit)
+            me = ("sym", "self")
+            ev.hint(me, sem.Evaluator.adt_of_type(fn["inputs"][0]))
+            outs = ev.run(fn, [me])
+            if outs and not any(o.kind == "stuck" for o in outs):
+                good = not unchecked and all(o.kind == "ret" and sem.strip(o.ret)[0] == "nz" for o in outs)
+                okv = [(o.kind == "ret" and sem.strip(o.ret)[0] == "nz", repr(o)[:160]) for o in outs]
+            else:
+                okv = [nonzero_argument(body, t, adts) for _, t in news]
+                good = not unchecked and news and all(o for o, _ in okv)
             found.append((key, good, unchecked, okv))
             if not expect_bad:
                 ck.ob("N-encode-never-zero", key, good,
